@@ -359,8 +359,7 @@ func eqItems(a, b any) bool {
 	if a == nil || b == nil {
 		return a == b
 	}
-	if reflect.TypeOf(a).Comparable() && reflect.TypeOf(b).Comparable() {
-		return a == b
-	}
-	return reflect.DeepEqual(a, b)
+	// Liquid equality: never panics (a struct or Drop holding a slice is "comparable" to
+	// reflect but == on it panics) and sees through Drops.
+	return values.Equal(a, b)
 }
